@@ -426,6 +426,11 @@ def k_merge(run, case):
     m = int(rng.integers(1, 7))
     arrs, trs = [], []
     tbase = 1.5e9 if rng.random() < .3 else 100.0
+    # timestamp containers: float64 (default) or whole-number stamps (frame counters, integer
+    # seconds / nanoseconds) in signed / unsigned integer arrays, the same or mixed per input
+    int_stamps = bool(rng.random() < .25)
+    dts = [np.int64, np.uint64, np.int32, np.uint32, np.float64]
+    same_dt = dts[rng.integers(4)]
     for _ in range(m):
         n = int(rng.integers(1, {"quick": 60, "thorough": 800}[run.tier]))
         a = make_traj(rng, n, exact=False)
@@ -436,11 +441,17 @@ def k_merge(run, case):
         if rng.random() < .2 and arrs:  # provoke equal stamps across trajectories
             a["t"][0] = arrs[0]["t"][0]
             a["t"].sort()
+        if int_stamps:
+            a["t"] = np.unique(np.floor(a["t"] - tbase + 1)) + tbase
+            a = {k: (v[:len(a["t"])] if isinstance(v, np.ndarray) else v) for k, v in a.items()}
         arrs.append(a)
         trs.append(gen.make_evo(a, "se3" if rng.random() < .5 else "xyzq"))
+        if int_stamps:
+            trs[-1].timestamps = np.array(a["t"]).astype(same_dt if rng.random() < .7 else dts[rng.integers(5)])
     snaps = [contracts.field_snapshot(t) for t in trs]
     out = contracts.outcome_of(trajectory.merge, trs)
-    run.seen(case, core.digest([a["t"] for a in arrs], [a["p"] for a in arrs]), cls=["merge:%d" % m],
+    run.seen(case, core.digest([a["t"] for a in arrs], [a["p"] for a in arrs]),
+             cls=["merge:%d" % m] + (["merge: whole-number stamps in %s arrays" % "/".join(sorted({str(t.timestamps.dtype) for t in trs}))] if int_stamps else []),
              sample={"trajectories": m, "lengths": [len(a["t"]) for a in arrs], "outcome": out[0]})
     if not run.check(out[0] == "ok", "merge returns", case, "merge raised %r" % (out[1], )):
         return
